@@ -334,6 +334,15 @@ func (w *World) prepare(parts []PartSpec) {
 		bs[i] = &binned{p.V, p.Beg, p.End}
 	}
 	w.st.Prepare(bs)
+	// preparing for a part of another version may re-create the staged partial (it is keyed by
+	// name) while the record still describes the previous version
+	w.mu.Lock()
+	for _, p := range parts {
+		if s := w.shadows[p.V.Name]; s != nil && s.hash != "" && (s.hash != p.V.Hash || s.size != p.V.Size()) {
+			s.otherOffered = true
+		}
+	}
+	w.mu.Unlock()
 }
 
 func (w *World) receiveAll(parts []PartSpec, tag string) (n int, err error) {
